@@ -234,7 +234,7 @@ class Check(object):
                 self._judge(t, r, v, step, trace_module)
         return list(zip(good, verdicts))
 
-    def replay_behaviours(self, behs, convert, project, trace_module):
+    def replay_behaviours(self, behs, convert, project, trace_module, unordered=()):
         """spec -> code: each TLC behaviour of an implementation spec becomes (scenario, schedule); the real
         library is stepped along it and the projection of what it did is compared with the spec's history.
         A difference is model drift (reported, never an alarm); the executions are judged by the contract
@@ -251,8 +251,8 @@ class Check(object):
         drifts = []
         for ((t, r), (v, step)) in pairs:
             self.replayed += 1
-            got = norm_polled(project(r["trace"]))
-            exp = norm_polled(exp_by_id[id(t)])
+            got = norm_polled(project(r["trace"]), unordered)
+            exp = norm_polled(exp_by_id[id(t)], unordered)
             if got != exp or r.get("mismatch"):
                 self.drift += 1
                 if len(drifts) < 3:
@@ -338,12 +338,27 @@ class Check(object):
 POLLED = ("Observed", "DelegateState")
 
 
-def norm_polled(evs):
+def norm_polled(evs, unordered=()):
     """State changes of futures are observed by polling at the end of a step; the order in which several of
     them are reported within one step is an artefact: sort each run of consecutive polled events."""
     out, run = [], []
+    for ev_name in unordered:   # e.g. the sweep over a set: iteration order is unspecified
+        evs = _sort_runs(evs, ev_name)
     for e in evs:
         if e[0] in POLLED:
+            run.append(e)
+        else:
+            out.extend(sorted(run))
+            run = []
+            out.append(e)
+    out.extend(sorted(run))
+    return out
+
+
+def _sort_runs(evs, name):
+    out, run = [], []
+    for e in evs:
+        if e[0] == name:
             run.append(e)
         else:
             out.extend(sorted(run))
